@@ -7,7 +7,7 @@ ASSUME = ["a sink re-entering Emit is not combined with the blocking strategy (i
           "decided: no panic escaping an API call, no deadlock (30 s watchdog), Stop within grace, no sink invocation beginning after Stop returned, CEP flush before return, no engine-started goroutine left 3 s after Stop",
           "NOT decided by this technique: freedom from data races on memory (a memory-model property of the Go program)",
           "sequence numbers are taken as the first statement of a sink and right after an API call returns"]
-KINDS = ["direct", "count", "tumbling", "cep", "analytic"]
+KINDS = ["direct", "count", "tumbling", "cep", "analytic", "sliding", "session", "global", "ptumble", "pslide", "psession", "late"]
 
 
 def run(tier):
@@ -20,7 +20,7 @@ def run(tier):
     for kind in KINDS:
         for strat in ("drop", "block", "expand"):
             scen.append({"kind": kind, "strategy": strat, "sinks": "fast", "directed": "afterstop"})
-    for i in range(30 if quick else 400):
+    for i in range(48 if quick else 600):
         strat, sinks = ["drop", "block", "expand"][(i // 5) % 3], ["fast", "slow", "panic", "reentrant"][(i // 3) % 4]
         if strat == "block" and sinks == "reentrant":
             strat = "drop"      # a sink that re-enters Emit under the blocking strategy waits on the goroutine that is running it (assumption)
